@@ -14,9 +14,10 @@ RULE = ("valid streams of every method and the small .drc files of testdata (bit
         "declared = points (+ faces / encoded vertices) read from the stream, or of the returned geometry; requests above "
         f"the cap ({R.CAP} bytes) are refused and must be within the bound. Lean model on the same bytes: status, declared "
         "count (sequential streams), geometry; distinct op lines")
-THEOREM_BACKED = ("alloc_bounded: every event of the allocation log of decodeGeometry on bs is <= A + K * (bs.length + "
-                  "declared) for accepted and rejected streams (sequential decoders; A = 4 MiB + 64 KiB, K = 2048); "
-                  "declared_le: declared counts of accepted sequential meshes are those of the geometry")
+THEOREM_BACKED = ("alloc_bounded: every event of the allocation log of decodeGeometry on bs is <= 4259840 + 2048 * (bs.length "
+                  "+ declared) for accepted and rejected streams (sequential decoders); alloc_bounded_undeclared; "
+                  "symbol_tables_bounded (tables of RAnsSymbolDecoder::Create for any bytes); num_symbols_guard; "
+                  "metadata_reader_is_suffix")
 CORRESPONDENCE_ONLY = ("kd-tree / Edgebreaker decoders and bitstream < 2.0 attribute decoders are outside the model: the bound "
                        "is measured on the implementation only; the model's allocation log is an idealisation of the C++ "
                        "allocation sites (it is tied by the declared counts and by status / geometry equality, not byte for byte)")
@@ -40,7 +41,8 @@ def generate(rng, tier):
     small = sorted(streams, key=lambda s: len(s.data))
     legacy = [s for s in streams if s.data[5] < 2]
     if thorough:
-        plan = [(s, "counts") for s in streams] + [(s, "dense") for s in streams]
+        plan = [(s, "counts") for s in rng.sample(small[:120], min(len(small), 36))] + [(s, "counts") for s in legacy]
+        plan += [(s, "dense") for s in streams]
     else:
         plan = [(s, "light") for s in streams]
         plan += [(s, "counts") for s in rng.sample(small[:40], min(len(small), 6))]
